@@ -49,11 +49,14 @@ func (m *hllMem) Exec(op Tok) (opOut Tok, obs Tok) {
 	a := op.L
 	switch a[0].I() {
 	case hlNew:
+		opOut = TL(a[0], a[1], a[2], TNu(0))
 		h, err := gx.NewHyperLogLog(a[2].U())
 		if err != nil {
 			return opOut, TErr(errGeneric)
 		}
 		m.inst[a[1].I()] = h
+		_, _, alpha, _ := gx.VerifHLLState(h)
+		opOut = TL(a[0], a[1], a[2], TNu(m.orc.addFloat(alpha)))
 		return opOut, TOk(TUnit())
 	case hlUpdate:
 		h := m.inst[a[1].I()]
@@ -116,6 +119,9 @@ func (m *hllMem) Exec(op Tok) (opOut Tok, obs Tok) {
 func (g *Gen) hllM(small bool) uint64 {
 	if small {
 		return uint64(g.Pick(1, 2, 4, 8, 16, 32, 64))
+	}
+	if g.Small {
+		return uint64(g.Pick(128, 256))
 	}
 	return uint64(g.Pick(128, 128, 256, 512, 1024, 4096))
 }
